@@ -106,7 +106,9 @@ class Gen:
             if k < 0.78:
                 return '%s reverse' % self.val('vec', d + 1)
             if k < 0.86:
-                return '[ %s] sort' % ''.join(self.val('int', d + 1) + ' ' for _ in range(r.randint(0, 5)))
+                # literals only: a variable may hold a value of another type, and sorting values that are not mutually
+                # comparable is the recorded finding D19 (C12), not something these programs are about
+                return '[ %s] sort' % ''.join(self.int_lit() + ' ' for _ in range(r.randint(0, 5)))
             if k < 0.93:
                 return '%s %s %s slice' % (self.val('vec', d + 1), r.choice(['0', '1', '-1', '-3', '5']), r.choice(['2', '-1', '100', '0']))
             n = r.randint(0, 3)
